@@ -415,6 +415,51 @@ pub fn run_c04(out: &mut Out, seed: u64, thorough: bool) {
             out.count("two-presses");
             t1 += step;
         }
+        // a second press WHILE the routine of the first one runs: at every cycle from the entry to well after
+        // RETI (dropped at the routine's next end word while IEF is clear; kept over RETI itself, which does
+        // not sample, and then taken after the first instruction of the resumed program)
+        {
+            let firsts: Vec<usize> = [t_total / 3, t_total / 2, (2 * t_total) / 3].iter().cloned().collect();
+            for (fi, t1) in firsts.iter().enumerate() {
+                if !thorough && fi > 0 && pi % 2 == 0 {
+                    continue;
+                }
+                for d in 0..(if thorough { 140 } else { 100 }) {
+                    let mut s = Sess::new();
+                    run_line(out, &mut s, "new");
+                    run_line(out, &mut s, &load);
+                    run_line(out, &mut s, &format!("edges {}", t1));
+                    let micr1 = s.m.bus().is_key_edge_int_enabled();
+                    let ie1 = ie_at_next_sample(&s);
+                    run_line(out, &mut s, "irq");
+                    run_line(out, &mut s, &format!("edges {}", d));
+                    // while the first request is still pending a second press merges with it
+                    let merged = s.m.verif_state().pending_edge_interrupt;
+                    let micr2 = s.m.bus().is_key_edge_int_enabled();
+                    let ie2 = ie_at_next_sample(&s);
+                    run_line(out, &mut s, "irq");
+                    run_line(out, &mut s, "spec.micr");
+                    run_line(out, &mut s, "d");
+                    run_line(out, &mut s, "edges 300");
+                    run_line(out, &mut s, "d");
+                    settle(&mut s, spin);
+                    let count = s.m.bus().memory()[CNT as usize];
+                    let transparent = arch_view(&s) == reference;
+                    if merged {
+                        out.emit(
+                            &format!("spec.c04 {} {}", (micr1 || micr2) as u8, ie2 as u8),
+                            &format!("count={} transparent={}", count, transparent as u8),
+                        );
+                    } else {
+                        out.emit(
+                            &format!("spec.c04two {} {} {} {}", micr1 as u8, ie1 as u8, micr2 as u8, ie2 as u8),
+                            &format!("count={} transparent={}", count, transparent as u8),
+                        );
+                    }
+                    out.count("press-during-routine");
+                }
+            }
+        }
         // two triggers at pairs of cycles in a short window: at most two entries, still transparent
         let window = if thorough { 40 } else { 12 };
         let start = t_total / 2;
